@@ -47,6 +47,8 @@ theorem text_init_eq_model : type_of% @Proofs.GenMany.text_init_eq_model := @Pro
 /-- **`many2sql([db₁, …], tablenames=[n₁, …])` = `Model.manyNamed`**: names as given after the `_create_table` clean-up, an existing name
     (also in another letter case / after the clean-up) is OperationalError, fewer names than structures IndexError, surplus names ignored -/
 theorem init_named_eq_model : type_of% @Proofs.GenMany.init_named_eq_model := @Proofs.GenMany.init_named_eq_model
+/-- the order inside `_create_table`: a failing CREATE TABLE (existing name: OperationalError) wins over any error of reading the input -/
+theorem create_table_stmt_first : type_of% @Proofs.GenMany.create_table_stmt_first := @Proofs.GenMany.create_table_stmt_first
 /-- a non-`str` name, a non-list `tablenames` or `pdbfiles`: TypeError -/
 theorem init_named_type_errors : type_of% @Proofs.GenMany.init_named_type_errors := @Proofs.GenMany.init_named_type_errors
 /-- the hand model's clean-up of a table name is the closed form of the TRANSLATED clean-up loop of `_create_table` (parseTie's `GenP._create_table_for_c`) -/
@@ -74,6 +76,12 @@ example : Model.manyNamed id [src, src] ["a-b".toList, "wt".toList, "more".toLis
     Model.manyNamed id [src, src] ["Wt".toList, "wT".toList] = .error .operational ∧
     Model.manyNamed id [src, src] ["wt".toList] = .error .indexError ∧
     many2sql_init (Ext.modelN id) (.list [.obj src, .obj src]) (.list [.str "a-b".toList, .str "a_b".toList]) = .error .operational := by
+  decide +kernel
+/-- an existing name together with an input of an invalid type at the same position: OperationalError (CREATE TABLE comes first), on the
+    hand model's side and on the text side; with a new name the invalid input is ValueError -/
+example : many2sql_init (Ext.modelN id) (.list [.obj src, .other]) (.list [.str "b2".toList, .str "B2".toList]) = .error .operational ∧
+    many2sql_init Ext.text (.list [.obj src, .other]) (.list [.str "b2".toList, .str "B2".toList]) = .error .operational ∧
+    many2sql_init (Ext.modelN id) (.list [.obj src, .other]) (.list [.str "b2".toList, .str "c3".toList]) = .error .valueError := by
   decide +kernel
 /-- the type checks -/
 example : many2sql_init (Ext.model id) .other .none = .error .typeError ∧
